@@ -391,6 +391,20 @@ static T from_w(W v)
   }
 }
 
+// the operand of a refused update, read back afterwards: the update aborts INSTEAD of updating
+template<typename T>
+static void left_after_refusal(tr::Ev& e, T a)
+{
+  W left = 0;
+  bool ok = true;
+  try {
+    left = bits_of(cell<T>(0).UNSAFE_unverified());
+  } catch (const std::runtime_error&) {
+    ok = false;
+  }
+  e.wide("left", left).wide("left_want", bits_of(a)).boolean("left_ok", ok);
+}
+
 // compound assignment x OP= y on tainted / tainted_volatile x of type T (rank >= int), y plain/tainted of type U
 template<int OP, char LW, char RW, typename T, typename U>
 static void compound(std::mt19937_64& rng)
@@ -465,6 +479,9 @@ static void compound(std::mt19937_64& rng)
       e.str("lt", TN<T>::v).str("rt", TN<U>::v).wide("a", aw).wide("b", bw).wide("plain_after", bits_of(px));
       e.wide("plain_ret", bits_of(px)).wide("after", after).wide("ret", ret).str("out", outc).boolean("fits", fits);
       e.boolean("volatile_target", LW == 'V');
+      if (LW == 'V' && std::strcmp(outc, "abort") == 0) {
+        left_after_refusal<T>(e, a);
+      }
       out.put(e);
     }
   }
@@ -591,6 +608,9 @@ static void incdec_unary()
       e.wide("a", aw).wide("b", 0).wide("plain_after", bits_of(px)).wide("plain_ret", pret).wide("after", after);
       e.wide("ret", ret).str("out", outc).boolean("fits", fits).boolean("volatile_target", LW == 'V' && (which < 4 || which >= 6));
       e.boolean("same_type", same);
+      if (LW == 'V' && which < 4 && std::strcmp(outc, "abort") == 0) {
+        left_after_refusal<T>(e, a);
+      }
       out.put(e);
     }
   }
